@@ -1,5 +1,6 @@
 """C43 -- XFCC identity extraction is injection-proof.  Spec: spec/data/Xfcc.tla (reference tokenizer + Conforms)."""
 import random
+import re
 import warnings
 
 import falcon.testing as ft
@@ -11,7 +12,7 @@ from vf.tlc import Raw
 META = {
     "engine": "data",
     "text": "Xfcc.tla defines the XFCC grammar on characters (a left-to-right scanner over the delimiter alphabet "
-            "{, ; = \" \\ key-letter value-char} plus the percent-escapes %2C %3B %3D %22 %5C as ordinary value characters) and reports every value as position-identified tokens.  TLC enumerates "
+            "{, ; = \" \\ key-letter value-char} plus the percent-escapes %2C %3B %3D %22 %5C as ordinary value characters and white space -- ordinary inside quotes, optional after a separator) and reports every value as position-identified tokens.  TLC enumerates "
             "all strings over the alphabet up to length 4 (quick) / 6 (thorough), all strings 'k=' + tail with tails up to length 4 / 6 over that "
             "alphabet and up to length 4 over the alphabet extended by the percent-escapes (quick: %3B %3D; thorough: all five) "
             "(every grammar-valid header starts with a key: this reaches all valid headers of length 6 / 8 that "
@@ -26,7 +27,8 @@ META = {
     "note": "Trusted: the grammar transcription in Xfcc.tla; the chunk table that maps observed text back to header "
             "positions.  One-sided by design: values are compared modulo backslashes and URL-decoding; with duplicate "
             "keys any of the values is admissible; '' may be proxy_required or invalid_credential; for strings outside "
-            "the grammar only 'nothing but AuthFailure is raised' is checked.  Whitespace is not in the alphabet.",
+            "the grammar only 'nothing but AuthFailure is raised' is checked; headers with optional white space after a "
+            "separator are judged with the one-sided clauses only; values are compared modulo white space at their edges.",
 }
 
 KEYNAMES = ["Subject", "URI", "Hash", "DNS", "By", "Cert"]
@@ -50,7 +52,7 @@ def key_runs(s: list[str], exp: dict) -> list[tuple[int, int]]:
         return [(p["kpos"], p["klen"]) for e in exp["elems"] for p in e]
     out, i, n = [], 0, len(s)
     while i < n:
-        if s[i] == "k" and (i == 0 or s[i - 1] in (",", ";")):
+        if s[i] == "k" and (i == 0 or s[i - 1] in (",", ";", "w")):
             j = i
             while j < n and s[j] == "k":
                 j += 1
@@ -109,6 +111,8 @@ def concretize(s: list[str], exp: dict, vi: int, rng: random.Random):
             table_[chunks[i]] = str(i + 1)
         elif ch in ESC:
             chunks[i] = ESC[ch][(i + vi) % 2]
+        elif ch == "w":
+            chunks[i] = " \t"[(i + vi) % 2]
         elif ch == "q":
             chunks[i] = '"'
         elif ch == "b":
@@ -135,7 +139,7 @@ def tokens(text: str, table_: dict[str, str]) -> list[str]:
             i += 1
             if c == "\\":
                 continue
-            out.append({",": ",", ";": ";", "=": "=", '"': "q"}.get(c, "?"))
+            out.append({",": ",", ";": ";", "=": "=", '"': "q", " ": "w", "\t": "w"}.get(c, "?"))
     return out
 
 
@@ -150,7 +154,7 @@ def run(ctx: Ctx) -> None:
     # family of longer valid headers uses all five in both tiers
     consts = {"MaxLen": 4 if quick else 6, "TailLen": 4 if quick else 6, "FamilyDepth": 1 if quick else 2,
               "Alphabet": Raw('{",", ";", "=", "q", "b", "k", "v"}'),
-              "EscAlphabet": Raw('{"E;", "E="}') if quick else Raw('{"E,", "E;", "E=", "Eq", "Eb"}'), "EscTailLen": 4}
+              "EscAlphabet": Raw('{"E;", "E=", "w"}') if quick else Raw('{"E,", "E;", "E=", "Eq", "Eb", "w"}'), "EscTailLen": 4}
     invs = ["ElemsAreTopLevelCommas", "PairsAreTopLevelSemis", "EveryLetterOnce", "NonEmptyElems", "QuotesOnlyEscaped"]
     cases = enumerate_cases(ctx, "data", "Xfcc", constants=consts, invariants=invs)
     ctx.exhaustive = True
@@ -158,7 +162,7 @@ def run(ctx: Ctx) -> None:
                 "Xfcc!Cases with its reference parse; non-trivial = distinct (concrete header text, select_element, leg) "
                 "executed on the real authenticator")
     ctx.assume("key letters are written as the Envoy key names Subject/URI/Hash/DNS/By/Cert (exact case); a key of two "
-               "or more letters is an unknown key", "whitespace is outside the alphabet",
+               "or more letters is an unknown key", "white space: space and tab only",
                "values are compared modulo backslashes and URL-decoding; duplicate keys: any value admissible")
 
     captured: list = [None]
@@ -189,7 +193,7 @@ def run(ctx: Ctx) -> None:
 
     records: list[dict] = []
     n_invalid = 0
-    junk = ["%", "%zz", "é", " ", "\t", "%00", "\x00", "☃", "%2", "+"]
+    junk = ["%", "%zz", "é", " ", "\t", "%00", "\x00", "☃", "%2", "+", "%ff", "%FF%FE", "%c3", "%E2%82"]
     for ci, cj in enumerate(cases):
         case, exp = cj["case"], cj["exp"]
         s, cls = case["s"], exp["cls"]
@@ -209,7 +213,20 @@ def run(ctx: Ctx) -> None:
                             ctx.violation("OnlyAuthFailure", {"cls": "invalid", "exc": out, "sel": sel, "leg": leg},
                                           {"header": hdr, "abstract": "".join(s), "exception": repr(r)})
             continue
-        variants = (0,) if cls != "valid" else ((0, 2) if quick else (0, 1, 2, 3))
+        isvalid = cls in ("valid", "valid_ows")
+        if isvalid and (not quick or ci % 2 == 0):
+            # the same header with undecodable / odd percent sequences as value characters: must still not raise
+            rng = random.Random(f"{ctx.seed}|{ci}|junk")
+            hdr0, _, _ = concretize(s, exp, 0, rng)
+            hdrj = re.sub(r"v\d\d", lambda m: rng.choice(junk[-4:] + junk[:3]), hdr0)
+            for sel in ("first", "last"):
+                for leg in ("d", "v"):
+                    out, r = call(sel, leg, hdrj)
+                    ctx.case([hdrj, sel, leg])
+                    if out.startswith("raised:"):
+                        ctx.violation("OnlyAuthFailure", {"cls": cls, "exc": out, "sel": sel, "leg": leg},
+                                      {"header": hdrj, "abstract": "".join(s), "exception": repr(r)})
+        variants = (0,) if not isvalid else ((0, 2) if quick else (0, 1, 2, 3))
         for vi in variants:
             rng = random.Random(f"{ctx.seed}|{ci}|{vi}")
             hdr, names, tb = concretize(s, exp, vi, rng)
@@ -244,7 +261,7 @@ def run(ctx: Ctx) -> None:
     ctx.extra["case_classes"] = hist
     ctx.extra["note_lenient_parser"] = ("strings without any key=value pair (e.g. ';' or 'x') yield an authenticated "
                                         "context with an empty principal; outside the statement, noted only")
-    valid_recs = [r for r in records if r["_cls"] == "valid"]
+    valid_recs = [r for r in records if r["_cls"] in ("valid", "valid_ows")]
     for r in valid_recs[:: max(1, len(valid_recs) // 5)][:5]:
         ctx.sample({"abstract_header": "".join(r["case"]["s"]), "concrete_header": r["_hdr"],
                     "observed_raw": r["_raw"], "observed_tokens": {k: r["obs"][k] for k in ("first", "last")}})
